@@ -17,7 +17,7 @@ RULE = ("one evaluation = one attribute object (all message kinds; every subset 
 ASSUMPTIONS = ["fields the sender left unset (None / empty mention list) may come back as protobuf defaults",
                "floats are compared after rounding to the protobuf field width",
                "field types are taken from the repository's generated protobuf descriptors (data, not logic)"]
-REQUIRED = ["lists_edited_in_place", "composed_with_omitted_arguments", "entity_recompose_cases", "entity_recompose_ok", "objects", "peer_payloads", "entity_roundtrips", "subsets_enumerated", "fields_compared", "nested_quoted",
+REQUIRED = ["failing_compositions", "lists_edited_in_place", "composed_with_omitted_arguments", "entity_recompose_cases", "entity_recompose_ok", "objects", "peer_payloads", "entity_roundtrips", "subsets_enumerated", "fields_compared", "nested_quoted",
             "kind:image", "kind:video", "kind:audio", "kind:document", "kind:sticker", "kind:location", "kind:contact",
             "kind:extended_text", "kind:protocol", "kind:sender_key_distribution_message", "kind:conversation"]
 TIMEOUT = {"quick": 900, "thorough": 7200}
@@ -162,6 +162,26 @@ def gen_obj(r, clsname, protoname, subset=None, depth=0, stats=None):
 _BUILT = []
 
 
+def failing_compositions(r, acc):
+    """What also happens in a long-lived process: now and then an application composes something that cannot be serialised (a
+    text where a number belongs, deep inside a quoted message) and gets an exception. Later, valid messages are none of its
+    business: they are judged as always."""
+    c = M()["c"]
+    conv = M()["conv"]
+    for _ in range(2):
+        try:
+            bad = gen_obj(r, "ImageAttributes", "ImageMessage", subset=[])
+            bad._width = "not a number"
+            inner = c.MessageAttributes(image=bad)
+            for depth in range(r.choice([1, 2, 3])):
+                ctx = c.ContextInfoAttributes(stanza_id=gen.msgid(r), participant=gen.jid(r), quoted_message=inner)
+                inner = c.MessageAttributes(extended_text=c.ExtendedTextAttributes(gen.unicode_text(r, 1, 10), None, None, None, None, None, context_info=ctx))
+            conv.message_to_protobytes(inner)
+            acc.count("failing_compositions_that_passed")
+        except Exception:  # noqa
+            acc.count("failing_compositions")
+
+
 def edit_in_place(r, acc):
     """What an application may do with an object it composed earlier: add to its list-valued fields in place. Objects composed
     later must not notice."""
@@ -281,6 +301,8 @@ def check_object(acc, r, kind, msg, tag, subset_desc, stats):
         acc.count("object_ok")
     if acc.counters.get("objects", 0) % 9 == 0:
         edit_in_place(r, acc)
+    if acc.counters.get("objects", 0) % 17 == 0:
+        failing_compositions(r, acc)
     return data
 
 
